@@ -354,9 +354,20 @@ class Thread:
         self._name = name or (getattr(target, '__name__', None) or f'T{next(Thread._n)}')
         self._st = St(self._name)
         self._st.role = self._name.lstrip('_')
-        self.pid = None
-        self.ident = None
+        self._pid = None
+        self._ident = None
         self._is_proc = False
+
+    @property
+    def pid(self):
+        return self._pid if getattr(self, '_ready', True) else None
+
+    @property
+    def ident(self):
+        # a Process object's ident is its pid (None until Popen() has returned); a Thread's is set before run() begins
+        if self._is_proc:
+            return self.pid
+        return self._ident
 
     @property
     def name(self):
@@ -419,7 +430,7 @@ class Thread:
             # the extras a worker instance passes to user functions are fixed when it starts
             S.inst_cfg[len(S.threads) - 1] = {'pass_worker_id': bool(pp.pass_worker_id), 'shared': pp.shared_objects is not None,
                                               'use_worker_state': bool(pp.use_worker_state)}
-        self.ident = id(st)
+        self._ident = id(st)
         S.rec('start', st.role)
         S.yield_point('start')
 
@@ -449,11 +460,15 @@ class Process(Thread):
         p.main_st = self._st
         self._st.proc = p
         self._proc = p
-        self.pid = p.pid
+        self._pid = p.pid
+        self._ready = False
         S.procs[p.pid] = p
         clone = copy.deepcopy(self)
         self._clone = clone
+        # like multiprocessing: the child runs as soon as it is forked, but the parent's Process object only learns about it
+        # (pid, is_alive(), join()) when Popen() has returned — the thread calling start() can be descheduled in between
         super().start()
+        self._ready = True
 
     def _entry(self):
         return self._clone.run
@@ -477,13 +492,16 @@ class Process(Thread):
         S.ledger['proc_closed'] += 1
 
     def join(self, timeout=None):
-        if not self._st.started:
+        if not self._st.started or not getattr(self, '_ready', False):
             raise AssertionError('can only join a started process')
         super().join(timeout)
 
     def is_alive(self):
         if self._closed:
             raise ValueError('process object is closed')
+        if not getattr(self, '_ready', False):
+            S.yield_point('is_alive', self)
+            return False
         return super().is_alive()
 
     @property
@@ -529,6 +547,8 @@ class Lock(_Shared):
             if self._owner is not None:
                 return False
         else:
+            if S.rules:
+                S.yield_point('lock.acquire', self)       # a schedule rule may hold the thread up right before it takes the lock
             ok = S.block_until(lambda: self._owner is None or (self._owner.done),
                                None if timeout in (-1, None) else timeout, f'lock {self.role}')
             if not ok:
